@@ -309,7 +309,7 @@ FUZZ_TARGETS = {"redirect": (lambda data: {"kind": "redirect", "s": F.text_from_
 
 def campaigns(tier, seed):
     return [
-        Campaign("redirect-coverage-guided", F.fuzz_campaign("redirect", runs=(2000, 150000), max_len=96, dictionary=F.URL_DICT + ["redirect_to=", "target=", "redir=", "link=", "orig=", "goto=", "l=", "%2F", "%3F", "%3D", "%26", "%252F", "bc.marfeel.com/", "bc.marfeelcache.com/amp/", "youtube.com/redirect?", "/url?", "&amp;"], corpus=F.URL_CORPUS), "atheris",
+        Campaign("redirect-coverage-guided", F.fuzz_campaign("redirect", runs=(2000, 150000), max_len=96, dictionary=F.URL_DICT + ["redirect_to=", "target=", "redir=", "link=", "orig=", "goto=", "l=", "%2F", "%3F", "%3D", "%26", "%252F", "bc.marfeel.com/", "bc.marfeelcache.com/amp/", "youtube.com/redirect?", "/url?", "&amp;"], corpus=F.URL_CORPUS), F.ENGINE,
                  bounds="libFuzzer over UTF-8 strings <= 96 bytes"),
         Campaign("redirect-grammar", _grammar_enum, "enumeration", exhaustive=True,
                  bounds="12 positions x 23 keys x 21 targets x 3/4 encoding levels + self-referential / nested (depth 2-4) shapes"),
